@@ -140,9 +140,16 @@ class Evaluator:
             flag = e[1]
             if flag not in self.flags:
                 raise AnalysisError(RULE, f"{self.where}: unknown flag {flag}")
+            agg = e[4] if len(e) > 4 else None
             if self.flags[flag]:
+                # per-block test, any(): True.  all(): True or False -- both arms are reached with the row block's flag
+                # True, which is exactly the obligation `optimised arm = general arm` recorded here
                 self.ifexps.append((flag, e[2], e[3]))
                 return self.flatten(e[2], coef)
+            if agg == "any":
+                # the row block's flag is False but another block's flag may be True: the optimised arm is reached with the
+                # general algebra, so it has to equal the general arm there as well
+                self.ifexps.append((f"{flag} aggregated over all blocks by any(): optimised arm reached for a block whose own flag is False;", e[2], e[3]))
             return self.flatten(e[3], coef)
         raise AnalysisError(RULE, f"{self.where}: unknown expression kind {k}")
 
